@@ -1,9 +1,11 @@
 CONSTANT NLines = 4
 CONSTANT Overrides = "single"
+CONSTANT MaxComps = 2
 INIT Init
 NEXT Next
 INVARIANT RaiseIff
 INVARIANT CollectIff
+INVARIANT EveryErrorHandled
 INVARIANT FailIff
 INVARIANT PrintIff
 INVARIANT StopIff
